@@ -262,10 +262,13 @@ func (t *TopKRedis) compareHeaps(key string) (bool, error) {
 		local key1 = KEYS[1]
 		local key2 = KEYS[2]
 		local size = ARGV[1]
-		local vals1 = redis.pcall('ZRANGE', key1, 0, -1)
-		local vals2 = redis.pcall('ZRANGE', key2, 0, -1)
-		for i=1, tonumber(size) do
-			if tonumber(vals1[i]) ~= tonumber(vals2[i]) then
+		local vals1 = redis.pcall('ZRANGE', key1, 0, -1, 'WITHSCORES')
+		local vals2 = redis.pcall('ZRANGE', key2, 0, -1, 'WITHSCORES')
+		if #vals1 ~= #vals2 then
+			return false
+		end
+		for i=1, #vals1 do
+			if vals1[i] ~= vals2[i] then
 				return false
 			end
 		end
